@@ -276,10 +276,48 @@ def rule_arg(ctx):
         ctx.holds('R3', 'argmin and argmax identical up to the function name (%d paths)' % len(sa))
 
 
+def rule_values_setter(ctx, rid='R4'):
+    """argmin / argmax along an axis replace positions by labels through `res.values = labels`: the DimArray.values setter must store the
+    (dtype-widened) buffer it writes into"""
+    ctx.rule(rid, 'DimArray.values setter: the widened buffer is stored in _values and receives the new values', 1)
+    fi = ctx.P.functions.get('dimarray.core.dimarraycls.DimArray.values.setter')
+    if fi is None:
+        ctx.undecide(rid, 'DimArray.values has no setter')
+        return
+    SELF_, NEW = P_('self'), P_(fi.params[1])
+    ev = run(ctx, fi)
+    ok = True
+    for p in ev.paths:
+        if p.kind != 'return':
+            continue
+        stores = [e for e in p.events if e.kind == 'store_attr' and e.a == SELF_ and e.b == '_values']
+        writes = [e for e in p.events if e.kind == 'store_sub']
+        if len(stores) != 1 or not (stores[0].c[0] == 'call' and T.call_name(stores[0].c) == '_maybe_cast_type'
+                                    and stores[0].c[2][:2] == (('attr', SELF_, '_values'), NEW)):
+            ctx.violated(rid, fi, 'store of _values', 'the setter must keep the array returned by _maybe_cast_type(self._values, newvalues) in self._values: '
+                         'when the dtype has to be widened (labels of another kind than the positions) that array is a new buffer, and writing into '
+                         'it without storing it discards the new values', node=fi.node)
+            ok = False
+            continue
+        good = [w for w in writes if w.a == ('attr', SELF_, '_values') and w.c == NEW and w.b[0] == 'slice' and w.b[1:] == (T.CONST_NONE,) * 3
+                and p.events.index(w) > p.events.index(stores[0])]
+        if len(good) != 1 or len(writes) != 1:
+            ctx.violated(rid, fi, 'write of the new values', 'after the store, the new values are written in place into self._values[:] (and nowhere else)', node=fi.node)
+            ok = False
+    if ok:
+        ctx.holds(rid, 'values setter: self._values = _maybe_cast_type(self._values, new); self._values[:] = new')
+
+
 def check(ctx):
     rule_cumulative(ctx)
     rule_diff(ctx)
     rule_arg(ctx)
+    rule_values_setter(ctx, rid='R4')
+    # cumsum / cumprod / argmin / argmax all run through apply_along_axis: its reduce / drop coherence rules (C08)
+    from . import c08
+    from ..report import Renamed as _Ren
+    ctx.rule('R5', 'apply_along_axis: the position handed to NumPy and the axis dropped / kept come from one resolution (shared with C08)', 5)
+    c08.rule_apply(_Ren(ctx, {'*': 'R5'}))
     # a tuple of dimensions is grouped by flatten(dims, insert=0) before the function is applied: flatten's order / splice / progress rules (C11)
     from . import c11
     from ..report import Renamed
